@@ -125,4 +125,8 @@ def run(ctx, ck):
     ck.rule('R-SYM.ground-halves', 'statements selecting one half of the ground flags select the other too')
     nsel, nst = check_ground_symmetry(ctx, ck)
     ck.floor('statements selecting a half of the ground flags', nst, 3)
+    # the closed-form self term describes one segment: its length and its radius are of the same pulse
+    ck.rule('R-ROLE.self-term', 'length and radius combined in one closed-form potential term belong to the same pulse of the pair')
+    from ._roles import check_self_term_roles
+    ck.floor('closed-form terms combining length and radius', check_self_term_roles(ctx, ck), 2)
     ck.undecided += ['numeric equality under wire reversal / reordering / splitting']
